@@ -87,6 +87,12 @@ add("C07", "model_checking",
     "Histories bounded by the depth; MISR and the UART send register are outside the statement and not compared.",
     "DESIGN.md 3/C07")
 
+add("C13", "exploration",
+    "exhaustive enumeration of program heads (all 2^16 two-byte heads x 5 stack sizes x 3 limits; thorough: all 2^24 three-byte heads), of every bus address x value through instructions and direct Bus calls, and of every stimulus sequence to depth 3/4 from 8 program states; oracle: panic monitor (catch_unwind, overflow checks and debug assertions on), machine still readable and steppable",
+    "Every call into Machine/RawMachine/Bus/Board made by these runs must return; after each event all getters are read and one more clock edge is issued.",
+    "Stacksize::NotSet excluded (not one of the five sizes, never installed by load); RAM images beyond head+tail pattern and longer stimulus sequences are outside the verdict.",
+    "DESIGN.md 3/C13")
+
 NOT_YET = {}
 
 def main():
